@@ -182,6 +182,9 @@ impl Cw {
                 }
                 if let Some(a) = &after {
                     let b = before.clone().unwrap_or_default();
+                    if let Some((k, e)) = a.entries.iter().find(|(_, e)| e.version > a.mv) {
+                        return Err(mk("C18.corrupt", format!("{desc}: the copy now holds {k:?}@{} above its max version {}", e.version, a.mv)));
+                    }
                     if (a.gc, a.mv) < (b.gc, b.mv) {
                         return Err(mk("C18.regressed", format!("{desc}: frontier ({}, {}) -> ({}, {})", b.gc, b.mv, a.gc, a.mv)));
                     }
